@@ -98,7 +98,9 @@ class _M:
             return self.t                       # representation changes keep the column
         if self.name == 'apply':
             f = a[0] if a else k.get('func')
-            return CT('apply', self.t, _fname(f))
+            t = CT('apply', self.t, _fname(f))
+            t.fn, t.kw = f, dict(k)             # not part of the term's identity: kept for rules that evaluate the function
+            return t
         if self.name in ('mean', 'sum', 'any', 'all', 'min', 'max', 'std', 'median', 'first', 'abs', 'isna', 'notna'):
             return CT(self.name, self.t, *[(kk, vv) for kk, vv in sorted(k.items())])
         return CT(self.name, self.t, *[_lit(x) for x in a], *[(kk, _lit(vv)) for kk, vv in sorted(k.items())])
